@@ -1,4 +1,6 @@
 """C07 — re-rooting and concatenation preserve structure and geometry."""
+import warnings
+
 import numpy as np
 
 from harness import gen
@@ -167,7 +169,17 @@ class CatSuite(Suite):
                         d = [t1["xyz"][a][i] + gap[i] - t2["xyz"][b][i] for i in range(3)]
                         t2 = dict(t2); t2["xyz"] = [[p[i] + d[i] for i in range(3)] for p in t2["xyz"]]
                         cls = "fixed-near-far/" + cls.split("/")[1]
-                    out.append({"class": cls, "t1": t1, "t2": t2, "n1": a, "n2": b, "translate": translate})
+                    case = {"class": cls, "t1": t1, "t2": t2, "n1": a, "n2": b, "translate": translate}
+                    # how the caller spells its request: the `translate` keyword, the defaults (translate=True, node 0), positional
+                    # node arguments, or the legacy keyword `no_move` that the library still maps onto the translate mode — the
+                    # result is a function of the request, however (and however often in one process) it is spelled
+                    sp = ["kw", "legacy", "kw", "legacy", "kw", "defaults", "legacy"][k % 7]
+                    if sp == "defaults" and not (translate and a == 0 and b == 0):
+                        sp = "kw"
+                    if sp != "kw":
+                        case["spelling"] = sp
+                        case["class"] = cls + "/" + sp
+                    out.append(case)
         return out
 
     def run(self, case):
@@ -177,7 +189,15 @@ class CatSuite(Suite):
         a.ndata["tag"] = (1000.0 + np.arange(case["t1"]["n"])).astype(np.float32)
         b.ndata["tag"] = (5000.0 + np.arange(case["t2"]["n"])).astype(np.float32)
         before = [{k: v.copy() for k, v in t.ndata.items()} for t in (a, b)]
-        y = cat_tree(a, b, case["n1"], case["n2"], translate=case["translate"])
+        sp = case.get("spelling", "kw")
+        with warnings.catch_warnings():
+            warnings.simplefilter("ignore")
+            if sp == "legacy":
+                y = cat_tree(a, b, node1=case["n1"], node2=case["n2"], no_move=not case["translate"])
+            elif sp == "defaults":
+                y = cat_tree(a, b)
+            else:
+                y = cat_tree(a, b, case["n1"], case["n2"], translate=case["translate"])
         return {"pid": y.pid().tolist(), "id": y.id().tolist(), "type": y.type().tolist(), "r": [float(v) for v in y.r()],
                 "tag": [float(v) for v in y.get_ndata("tag")] if "tag" in y.keys() else None,
                 "xyz": y.xyz().astype(float).tolist(),
